@@ -659,3 +659,80 @@ Example C18_nonvacuous_sum_own :
   read_slice (snd (sum_own no_growth ss h0)) (fst (sum_own no_growth ss h0)) =
     [mkSeg 3 (Some 1); mkSeg 6 (Some 2); mkSeg 9 (Some 2); mkSeg 5 None].
 Proof. vm_compute. repeat split; repeat constructor. Qed.
+
+(* ---- ... and of modepb.Sum (was: tied by the correspondence only) ---- *)
+From SC Require Import Timeline.ModeSumRefine.
+
+(* the slice Shift returns (the argument itself, a sub-slice of it, nil, or a new array) is a readable slice of the
+   exit heap: what lets the results of earlier Shifts be read after later ones *)
+Theorem C18_shift_result_readable : forall d s h, slice_ok h s ->
+  slice_ok (snd (shift_own d s h)) (fst (shift_own d s h)).
+Proof. exact shift_own_ok. Qed.
+Print Assumptions C18_shift_result_readable.
+
+(* for EVERY heap in which the argument modes' slices are readable, every list of argument modes (the same mode twice,
+   modes sharing one backing array, any capacities) and every growth policy: the mode modepb.Sum returns, read out of
+   the exit heap, is Mode.mode_sum of the arguments read out of the entry heap *)
+Theorem C18_mode_sum_own_refines : forall g ms h, Forall (fun m => slice_ok h (snd (mcell h m))) ms ->
+  option_map (read_mode (snd (mode_sum_own g ms h))) (fst (mode_sum_own g ms h)) = mode_sum (map (read_mode h) ms).
+Proof. exact mode_sum_own_refines. Qed.
+Print Assumptions C18_mode_sum_own_refines.
+
+(* headline for modepb.Sum on the heap: value of the result, frame, and the arguments read the same afterwards *)
+Theorem C18_mode_sum_on_heap : forall g ms h,
+  Forall (fun m => (m < List.length (mcells h))%nat /\ slice_ok h (snd (mcell h m))) ms ->
+  let r := fst (mode_sum_own g ms h) in let h' := snd (mode_sum_own g ms h) in
+  option_map (read_mode h') r = mode_sum (map (read_mode h) ms) /\
+  heap_ext h h' /\ Forall (fun m => read_mode h' m = read_mode h m) ms.
+Proof.
+  intros g ms h F. cbv zeta. split; [|split].
+  - apply mode_sum_own_refines. eapply Forall_impl; [|exact F]. cbv beta. intros m [_ H]. exact H.
+  - apply mode_sum_never_writes_args.
+  - eapply Forall_impl; [|exact F]. cbv beta. intros m [Hm Hs].
+    apply ext_read_mode; [apply mode_sum_never_writes_args|exact Hm|exact Hs].
+Qed.
+Print Assumptions C18_mode_sum_on_heap.
+
+Example C18_nonvacuous_mode_sum_own :
+  let '(h0, ms) := margs_heap [(1%nat, 2%nat, Some (mkTs 5 7), [mkSeg 3 (Some 5); mkSeg 1 None]);
+                               (0%nat, 1%nat, None, [mkSeg 2 (Some 4)]);
+                               (2%nat, 0%nat, Some (mkTs 5 2), [mkSeg 4 (Some 9)])] in
+  Forall (fun m => (m < List.length (mcells h0))%nat /\ slice_ok h0 (snd (mcell h0 m))) ms /\
+  option_map (read_mode (snd (mode_sum_own no_growth ms h0))) (fst (mode_sum_own no_growth ms h0)) =
+    Some (mkMode (Some (mkTs 5 2)) [mkSeg 4 (Some 5); mkSeg 9 (Some 4); mkSeg 3 (Some 1); mkSeg 1 None]).
+Proof. vm_compute. repeat split; repeat constructor. Qed.
+
+(* ---- the int64 Sum inside modepb.Sum (was an assumption: "durations inside the segmentpb.Sum call made by
+        modepb.Sum do not overflow int64") ---- *)
+From SC Require Import Timeline.MachineModeSum.
+
+(* a shifted list is at most |d| longer, for every list and every d of either sign *)
+Theorem C18_shift_total_length : forall d l, segs_wf l = true -> total_len (shift d l) <= Z.abs d + total_len l.
+Proof. exact total_len_shift. Qed.
+Print Assumptions C18_shift_total_length.
+
+(* hence modepb.Sum with the int64 Sum inside (mode_sum_ww: saturating Sub, wrapping Shift AND wrapping Sum) is the
+   model the code is compared with (mode_sum_w) and the integer model the pointwise law is about (mode_sum), inside the
+   guard of KModeSum plus "every list's total length fits an int64" (implied by sum_small when a start time exists) *)
+Theorem C18_machine_arithmetic_mode_sum_inner : forall ms,
+  forallb (fun m => lens_ok_b (msegs m)) ms = true -> sum_small ms = true ->
+  mode_sum_ww ms = mode_sum_w ms /\ mode_sum_ww ms = mode_sum ms.
+Proof.
+  intros ms L G. pose proof (mode_sum_ww_eq ms L G) as E. split; [exact E|]. rewrite E. apply mode_sum_w_eq. exact G.
+Qed.
+Print Assumptions C18_machine_arithmetic_mode_sum_inner.
+
+Theorem C18_mode_sum_inner_overflow_refuted :
+  exists ms, forallb (fun m => segs_wf (msegs m)) ms = true /\ sum_small ms = true /\
+             forallb (fun m => lens_ok_b (msegs m)) ms = false /\
+             option_eqb mode_eqb (mode_sum_ww ms) (mode_sum_w ms) = false.
+Proof. exact mode_sum_ww_overflow_refuted. Qed.
+Print Assumptions C18_mode_sum_inner_overflow_refuted.
+
+Example C18_nonvacuous_mode_sum_inner :
+  let ms := [mkMode (Some (mkTs 5 7)) [mkSeg 3 (Some 5); mkSeg 1 None]; mkMode None [mkSeg 2 (Some 4)];
+             mkMode (Some (mkTs 5 2)) [mkSeg 4 (Some 9223372036854775000)]] in
+  forallb (fun m => lens_ok_b (msegs m)) ms = true /\ sum_small ms = true /\
+  mode_sum_ww ms = Some (mkMode (Some (mkTs 5 2))
+    [mkSeg 4 (Some 5); mkSeg 9 (Some 4); mkSeg 7 (Some 1); mkSeg 5 (Some 9223372036854774990); mkSeg 1 None]).
+Proof. exact mode_sum_ww_nonvacuous. Qed.
